@@ -202,12 +202,22 @@ def vm_cond(ctx):
         for bb, c in sorted(it.calls.items()):
             if is_call(c.term, 'get', self_adt='VClock'):
                 fr = iteration_frame(it, bb)
+        # "may" is judged over one iteration of the loop over the other side's entries (the element comparison may be
+        # hoisted out of the dot loop); "must" over one iteration of the dot loop
+        from .loops import loops_of
+        outer = None
+        for lp in loops_of(it):
+            if lp.whole_over(2, (r['entries'],)) or (param_path(lp.source()[0]) and param_path(lp.source()[0])[:2] == (2, (r['entries'],))):
+                outer = lp
         for same in (True, False):
             for o in TOTAL:
                 rc = Reach(facts, vb, Evaluator(facts, classify=classify, bool_atom=atom, assumption={'same': same, 'dot': o, 'conc': False}))
                 if fr:
                     inner = rc._reach(fr[0], {fr[1]})
-                    table[(same, o)] = (any(b in inner for b in ebs), rc.must_pass(ebs, start=fr[0], stops=(fr[1],)))
+                    may = any(b in inner for b in ebs)
+                    if outer is not None:
+                        may = outer.may(rc, ebs)
+                    table[(same, o)] = (may, rc.must_pass(ebs, start=fr[0], stops=(fr[1],)))
                 else:
                     table[(same, o)] = (any(b in rc.reachable for b in ebs), False)
         det = {'(same element, ord(other_clock.get(actor), counter)) -> (Err may, must)': {str(k): v for k, v in table.items()}}
